@@ -7,6 +7,7 @@ import (
 	"os"
 	"os/exec"
 	"path/filepath"
+	"regexp"
 	"strconv"
 	"strings"
 
@@ -73,8 +74,118 @@ func probeForm(r *rng.R, depth int) Form {
 	return f
 }
 
+// probeAttrs draws the attribute items of an element: class expressions, handlers, and attribute-level if/else
+// blocks nested up to depth. taken says whether this position is rendered; *classTaken is set once a class
+// attribute has been placed at a rendered position (an element gets at most one rendered class attribute;
+// positions that are not rendered may hold any number).
+func probeAttrs(r *rng.R, depth int, taken bool, classTaken *bool) []PAttr {
+	var l []PAttr
+	for i := 1 + r.Intn(3); i > 0; i-- {
+		switch k := r.Intn(6); {
+		case k < 2 && depth > 0:
+			a := PAttr{Kind: "if", Cond: r.Intn(3) != 0}
+			a.Then = probeAttrs(r, depth-1, taken && a.Cond, classTaken)
+			if r.Intn(2) == 0 {
+				a.Else = probeAttrs(r, depth-1, taken && !a.Cond, classTaken)
+			}
+			l = append(l, a)
+		case k < 4:
+			s := probeScript(r)
+			l = append(l, PAttr{Kind: "on", S: &s})
+		default:
+			if taken && *classTaken {
+				s := probeScript(r)
+				l = append(l, PAttr{Kind: "on", S: &s})
+				continue
+			}
+			if taken {
+				*classTaken = true
+			}
+			a := PAttr{Kind: "class"}
+			for j := 1 + r.Intn(2); j > 0; j-- {
+				a.Forms = append(a.Forms, probeForm(r, 1))
+			}
+			l = append(l, a)
+		}
+	}
+	return l
+}
+
+func ifDepth(l []PAttr) int {
+	d := 0
+	for _, a := range l {
+		if a.Kind == "if" {
+			if x := 1 + ifDepth(a.Then); x > d {
+				d = x
+			}
+			if x := 1 + ifDepth(a.Else); x > d {
+				d = x
+			}
+		}
+	}
+	return d
+}
+
+// expandAttrs is what the generator does with such an element (generator.go writeElement): one RenderCSSItems per
+// class attribute wherever it sits (writeAttributesCSS walks into both branches), one RenderScriptItems for the
+// handlers of all branches (getAttributeScripts), then the tag with the attributes of the branches taken.
+func expandAttrs(attrs []PAttr) []Op {
+	var css []Op
+	var all []Script
+	var forms []Form
+	var on []Script
+	var walk func(l []PAttr, taken bool)
+	walk = func(l []PAttr, taken bool) {
+		for _, a := range l {
+			switch a.Kind {
+			case "class":
+				css = append(css, Op{Tag: "C", Forms: a.Forms})
+				if taken {
+					forms = append(forms, a.Forms...)
+				}
+			case "on":
+				all = append(all, *a.S)
+				if taken {
+					on = append(on, *a.S)
+				}
+			case "if":
+				walk(a.Then, taken && a.Cond)
+				walk(a.Else, taken && !a.Cond)
+			}
+		}
+	}
+	walk(attrs, true)
+	out := css
+	if len(all) > 0 {
+		out = append(out, Op{Tag: "I", Scripts: all})
+	}
+	return append(out, Op{Tag: "E", Forms: forms, Scripts: on})
+}
+
+// expandOps replaces every conditional-attribute element by the uses it stands for.
+func expandOps(ops []Op) []Op {
+	var out []Op
+	for _, o := range ops {
+		switch o.Tag {
+		case "X":
+			out = append(out, expandAttrs(o.Attrs)...)
+		case "O":
+			o2 := o
+			o2.Body = expandOps(o.Body)
+			out = append(out, o2)
+		default:
+			out = append(out, o)
+		}
+	}
+	return out
+}
+
 func probeOp(r *rng.R, depth int) Op {
 	k := r.Intn(12)
+	if r.Intn(4) == 0 {
+		ct := false
+		return Op{Tag: "X", Attrs: probeAttrs(r, 3, true, &ct)}
+	}
 	switch {
 	case k < 1:
 		return Op{Tag: "T", Text: "txt"}
@@ -203,9 +314,42 @@ func (s Script) src() string { return fmt.Sprintf("%s(%s)", s.Name, q(s.Call)) }
 
 var handlerAttrs = []string{"onclick", "onmouseover", "onfocus"}
 
+func attrsSrc(sb *strings.Builder, attrs []PAttr, indent string, n *int) {
+	for _, a := range attrs {
+		switch a.Kind {
+		case "class":
+			var parts []string
+			for _, f := range a.Forms {
+				parts = append(parts, f.src())
+			}
+			sb.WriteString(indent + "class={ " + strings.Join(parts, ", ") + " }\n")
+		case "on":
+			sb.WriteString(indent + handlerAttrs[*n%len(handlerAttrs)] + "={ " + a.S.src() + " }\n")
+			*n++
+		case "if":
+			cond := "bf"
+			if a.Cond {
+				cond = "bt"
+			}
+			sb.WriteString(indent + "if " + cond + " {\n")
+			attrsSrc(sb, a.Then, indent+"\t", n)
+			if len(a.Else) > 0 {
+				sb.WriteString(indent + "} else {\n")
+				attrsSrc(sb, a.Else, indent+"\t", n)
+			}
+			sb.WriteString(indent + "}\n")
+		}
+	}
+}
+
 func opsSrc(sb *strings.Builder, ops []Op, indent string) {
 	for _, o := range ops {
 		switch o.Tag {
+		case "X":
+			sb.WriteString(indent + "<div\n")
+			n := 0
+			attrsSrc(sb, o.Attrs, indent+"\t", &n)
+			sb.WriteString(indent + "></div>\n")
 		case "T":
 			sb.WriteString(indent + o.Text + "\n")
 		case "R":
@@ -312,11 +456,26 @@ func stripWS(s string) string {
 	}, s)
 }
 
+var reDivTag = regexp.MustCompile(`<div((?: [a-z]+="[^"]*")+)>`)
+var reOneAttr = regexp.MustCompile(` [a-z]+="[^"]*"`)
+
+// normAttrs gives every handler attribute the name the model uses and puts the class attribute first (the model
+// writes class before the handlers; a template may have them in any order).
 func normAttrs(s string) string {
 	for _, a := range handlerAttrs[1:] {
 		s = strings.ReplaceAll(s, " "+a+`="`, ` onclick="`)
 	}
-	return s
+	return reDivTag.ReplaceAllStringFunc(s, func(tag string) string {
+		var cls, rest []string
+		for _, a := range reOneAttr.FindAllString(tag, -1) {
+			if strings.HasPrefix(a, " class=") {
+				cls = append(cls, a)
+			} else {
+				rest = append(rest, a)
+			}
+		}
+		return "<div" + strings.Join(cls, "") + strings.Join(rest, "") + ">"
+	})
 }
 
 func goEnv() []string {
@@ -339,7 +498,7 @@ func probes(c *core.Ctx) {
 	for i, decl := range []string{"color: red;", "color: blue;", "margin: 1px;", "padding: 2px;"} {
 		fmt.Fprintf(&src, "css k%d() {\n\t%s\n}\n\n", i, decl)
 	}
-	src.WriteString("var h1 = templ.NewOnceHandle()\nvar h2 = templ.NewOnceHandle()\nvar h3 = templ.NewOnceHandle(templ.WithComponent(h3body()))\n\n")
+	src.WriteString("var h1 = templ.NewOnceHandle()\nvar h2 = templ.NewOnceHandle()\nvar h3 = templ.NewOnceHandle(templ.WithComponent(h3body()))\nvar bt, bf = true, false\n\n")
 	src.WriteString("type otherClass string\n\nfunc (o otherClass) ClassName() string {\n\treturn string(o)\n}\n\n")
 	src.WriteString("templ h3body() {\n")
 	opsSrc(&src, fixedBody, "\t")
@@ -350,6 +509,11 @@ func probes(c *core.Ctx) {
 			ops = append(ops, probeOp(r, 2))
 		}
 		srcStart := src.Len()
+		for _, o := range ops {
+			if o.Tag == "X" {
+				c.Hist(fmt.Sprintf("probe: element with attributes under if/else nested to depth %d", ifDepth(o.Attrs)))
+			}
+		}
 		// some stretches of the uses are moved into child templates called from the page
 		var page []Op
 		child := 0
@@ -375,15 +539,42 @@ func probes(c *core.Ctx) {
 	}
 	c.Extra["probe_templates"] = n
 
-	tf, err := parser.ParseString(src.String())
-	if err != nil {
-		fail("probe source parses", err.Error())
-		return
-	}
-	var gen bytes.Buffer
-	if _, err = generator.Generate(tf, &gen); err != nil {
-		fail("probe source generates", err.Error())
-		return
+	// One .templ file per 100 pages (the shared declarations go into the first): the templ parser was seen to
+	// reject a single ~199 KB file of 732 templates each of which it accepts, so probe files are kept small.
+	genFiles := map[string]string{}
+	headEnd := strings.Index(src.String(), ps[0].src)
+	for lo := 0; lo < n; lo += 100 {
+		hi := lo + 100
+		if hi > n {
+			hi = n
+		}
+		var unit strings.Builder
+		if lo == 0 {
+			unit.WriteString(src.String()[:headEnd])
+		} else {
+			unit.WriteString("package main\n\n")
+		}
+		for _, p := range ps[lo:hi] {
+			unit.WriteString(p.src)
+		}
+		tf, err := parser.ParseString(unit.String())
+		if err != nil {
+			ctxt := ""
+			for _, p := range ps[lo:hi] {
+				if _, e := parser.ParseString("package main\n\n" + p.src); e != nil {
+					ctxt = e.Error() + "\n" + p.src
+					break
+				}
+			}
+			fail("probe source parses", err.Error()+"\n"+ctxt)
+			return
+		}
+		var gen bytes.Buffer
+		if _, err = generator.Generate(tf, &gen); err != nil {
+			fail("probe source generates", err.Error())
+			return
+		}
+		genFiles[fmt.Sprintf("p%d_templ.go", lo/100)] = gen.String()
 	}
 	dir, err := os.MkdirTemp("", "verif_c12_probe")
 	if err != nil {
@@ -451,9 +642,11 @@ func main() {
 	files := map[string]string{
 		"go.mod":      "module probe\n\ngo 1.23.0\n\nrequire github.com/a-h/templ v0.0.0\n\nreplace github.com/a-h/templ => " + core.Repo() + "\n",
 		"go.sum":      string(sum),
-		"p_templ.go":  gen.String(),
 		"main.go":     mainSrc.String(),
 		"p.templ.txt": src.String(),
+	}
+	for f, g := range genFiles {
+		files[f] = g
 	}
 	for f, s := range files {
 		if err := os.WriteFile(filepath.Join(dir, f), []byte(s), 0o644); err != nil {
@@ -483,7 +676,7 @@ func main() {
 	var hs []Hist
 	for _, p := range ps {
 		h := Hist{Cfgs: []Cfg{{}}}
-		for _, op := range substOps(&d, p.ops) {
+		for _, op := range substOps(&d, expandOps(p.ops)) {
 			h.Ops = append(h.Ops, COp{0, op})
 		}
 		hs = append(hs, h)
@@ -509,6 +702,8 @@ func main() {
 	}
 	res := c.Model(reqs)
 	tieOK, propOK := true, true
+	tieAt, propAt := -1, -1 // the failing probe with the shortest source is the one reported
+	shorter := func(i, j int) bool { return j < 0 || len(srcOf(i)) < len(srcOf(j)) }
 	for i, h := range hs {
 		c.Count("probe:" + hashToks(h.toks()))
 		if i < n {
@@ -521,19 +716,27 @@ func main() {
 			tieOK = false
 			continue
 		}
-		want := stripWS(string(run[1]))
-		got := stripWS(normAttrs(docs[i]))
-		if want != got && tieOK {
+		if stripWS(string(run[1])) != stripWS(normAttrs(docs[i])) {
 			tieOK = false
-			c.Fail("tie", name+": model = generated code", "", map[string]any{"templ_source": srcOf(i), "history": h, "impl": docs[i], "model": string(run[1])},
-				"the document rendered by the compiled generated code differs from the model's (white space and handler attribute names aside)")
+			if shorter(i, tieAt) {
+				tieAt = i
+			}
 		}
-		if string(chk[1]) != "1" && propOK {
+		if string(chk[1]) != "1" {
 			propOK = false
-			c.Fail("property", name+": specification on the documents generated code wrote", shapeOf(h, 0, normAttrs(docs[i])),
-				map[string]any{"templ_source": srcOf(i), "history": h, "document": docs[i]},
-				"in a document rendered by compiled generated code a definition is repeated, or a use lacks its call / class name, or comes before its definition")
+			if shorter(i, propAt) {
+				propAt = i
+			}
 		}
+	}
+	if i := tieAt; i >= 0 {
+		c.Fail("tie", name+": model = generated code", "", map[string]any{"templ_source": srcOf(i), "history": hs[i], "impl": docs[i], "model": string(res[2*i][1])},
+			"the document rendered by the compiled generated code differs from the model's (white space, handler attribute names and attribute order aside)")
+	}
+	if i := propAt; i >= 0 {
+		c.Fail("property", name+": specification on the documents generated code wrote", shapeOf(hs[i], 0, normAttrs(docs[i])),
+			map[string]any{"templ_source": srcOf(i), "history": hs[i], "document": docs[i]},
+			"in a document rendered by compiled generated code a definition is repeated, or a use lacks its call / class name, or comes before its definition")
 	}
 	c.Oblige("correspondence", name+": documents rendered by compiled generated code = the model's on every probe history", tieOK, "")
 	c.Oblige("correspondence", name+": specification predicate (extracted check_log) holds of every document compiled generated code wrote", propOK, "")
